@@ -366,7 +366,25 @@ impl CorruptSpec {
                         d[at..at + 4].copy_from_slice(&v.to_le_bytes());
                     }
                 };
-                match kind % 18 {
+                match kind % 20 {
+                    18 | 19 => {
+                        // every ',' and ';' of a string value becomes a digit: "x64;1033,1031" turns into
+                        // one long number (18), or its tail does (19)
+                        let ty = r32(d, voff).unwrap_or(0);
+                        let len = r32(d, voff.saturating_add(4)).unwrap_or(0);
+                        if ty == 30 && len >= 2 && len < 100_000 {
+                            let mut seen = 0;
+                            for k in 0..len - 1 {
+                                let at = voff.saturating_add(8 + k);
+                                if at < d.len() && (d[at] == b',' || d[at] == b';') {
+                                    seen += 1;
+                                    if kind % 20 == 18 || seen >= 2 {
+                                        d[at] = b'9';
+                                    }
+                                }
+                            }
+                        }
+                    }
                     16 => {
                         // high bit in one byte of a string value: first, last ones, or anywhere
                         let ty = r32(d, voff).unwrap_or(0);
